@@ -7,6 +7,7 @@ import (
 	"fmt"
 	"net"
 	"os"
+	"strings"
 	"sync"
 	"sync/atomic"
 	"testing"
@@ -23,10 +24,13 @@ import (
 	"github.com/veesix-networks/osvbng/pkg/component"
 	"github.com/veesix-networks/osvbng/pkg/config"
 	"github.com/veesix-networks/osvbng/pkg/config/subscriber"
+	"github.com/veesix-networks/osvbng/pkg/dataplane"
 	"github.com/veesix-networks/osvbng/pkg/events"
 	"github.com/veesix-networks/osvbng/pkg/ifmgr"
 	"github.com/veesix-networks/osvbng/pkg/logger"
+	"github.com/veesix-networks/osvbng/pkg/models"
 	"github.com/veesix-networks/osvbng/pkg/ppp"
+	pppoepkt "github.com/veesix-networks/osvbng/pkg/pppoe"
 	"github.com/veesix-networks/osvbng/pkg/svcgroup"
 )
 
@@ -412,6 +416,122 @@ func c07EventsRAKick(n []uint64, events []byte) string {
 	return c07Ok(toks...)
 }
 
+// bkpadr <free ids> <events>: PPPoE discovery with the session-id space (65535 ids) filled except <free ids>.
+// Events: 'R' a well-formed PADR from a new host (valid AC-Cookie), 'F' one id becomes free, 'T' PADT from the owner of the
+// session created last.  Every handler call runs under the watchdog; after every step: outcome (1 session created, 2 refused
+// for lack of ids, 3 did not return, 4 freed / terminated, 5 nothing to do, 9 other error) and the number of free ids, and the
+// discovery locks (sidMu, sessionMu) must be free again.
+func c07DiscoveryExhaustion(n []uint64, events []byte) string {
+	cfg := &config.Config{SubscriberGroups: &subscriber.SubscriberGroupsConfig{
+		Groups: map[string]*subscriber.SubscriberGroup{"grp": {VLANs: []subscriber.VLANRange{{SVLAN: "100"}}}}}}
+	ifMgr := ifmgr.New()
+	ifMgr.Add(&ifmgr.Interface{SwIfIndex: 10, SupSwIfIndex: 2, Name: "TenGigE0/0.100", Type: ifmgr.IfTypeSub, OuterVlanID: 100})
+	ifMgr.Add(&ifmgr.Interface{SwIfIndex: 2, Name: "TenGigE0/0", Type: ifmgr.IfTypeHardware, MAC: []byte{0x52, 0x54, 0x00, 0x11, 0x22, 0x33}})
+	cm, err := pppoepkt.NewCookieManager(time.Minute)
+	if err != nil {
+		return "ok NOCOOKIE"
+	}
+	c := &Component{
+		Base: component.NewBase("pppoe-c07d"), logger: logger.NewTest(), eventBus: &c07Bus{}, ifMgr: ifMgr,
+		cfgMgr: &c07GroupCfg{cfg: cfg}, acName: "osvbng", cookieMgr: cm, svcGroupResolver: svcgroup.New(),
+		sessions: make(map[string]*SessionState), sidIndex: make(map[uint16]*SessionState),
+		sessionIDIndex: make(map[string]*SessionState), acctSessionIndex: make(map[string]*SessionState),
+		usernameIndex: make(map[string]*SessionState), ipv4Index: make(map[string]*SessionState),
+		ipv6Index: make(map[string]*SessionState), nextSessionID: 1,
+	}
+	filler := &SessionState{component: c, SessionID: "filler", MAC: net.HardwareAddr{2, 0, 0, 0, 0, 1}, OuterVLAN: 100}
+	free := int(c07Num(n, 0))
+	for sid := 1; sid <= 0xFFFF-free; sid++ {
+		c.sidIndex[uint16(sid)] = filler
+	}
+	nextFiller := 1
+	var mine []*SessionState
+	defer func() {
+		for _, s := range mine {
+			c07Returns(c07CallWatchdog, func() { s.terminate() })
+		}
+	}()
+	var toks []string
+	for k, e := range events {
+		out := "5"
+		switch e {
+		case 'R':
+			mac := net.HardwareAddr{0xaa, 0, 0, 0, byte(k >> 8), byte(k)}
+			cookie := c.cookieMgr.Generate(mac, 100, 0)
+			tags := pppoepkt.NewTagBuilder().AddServiceName("").AddACCookie(cookie).AddHostUniq([]byte{1, 2, 3, 4}).Build()
+			pkt := &dataplane.ParsedPacket{Protocol: models.ProtocolPPPoEDiscovery, SwIfIndex: 10, MAC: mac, OuterVLAN: 100,
+				PPPoE: &layers.PPPoE{Version: 1, Type: 1, Code: layers.PPPoECodePADR, Length: uint16(len(tags)),
+					BaseLayer: layers.BaseLayer{Payload: tags}}}
+			var herr error
+			if !c07Returns(c07CallWatchdog, func() { herr = c.handlePacket(pkt) }) {
+				c07Hangs++
+				toks = append(toks, "3", "0")
+				return c07Ok(toks...)
+			}
+			switch {
+			case herr == nil:
+				out = "1"
+				c.sessionMu.RLock()
+				for _, s := range c.sidIndex {
+					if s != filler && s.MAC.String() == mac.String() {
+						mine = append(mine, s)
+					}
+				}
+				c.sessionMu.RUnlock()
+			case strings.Contains(herr.Error(), "no free PPPoE session id"):
+				out = "2"
+			default:
+				out = "9"
+			}
+		case 'T':
+			if len(mine) > 0 {
+				s := mine[len(mine)-1]
+				mine = mine[:len(mine)-1]
+				pkt := &dataplane.ParsedPacket{Protocol: models.ProtocolPPPoEDiscovery, SwIfIndex: 10, MAC: s.MAC, OuterVLAN: 100,
+					PPPoE: &layers.PPPoE{Version: 1, Type: 1, Code: layers.PPPoECodePADT, SessionId: s.PPPoESessionID}}
+				if !c07Returns(c07CallWatchdog, func() { _ = c.handlePacket(pkt) }) {
+					c07Hangs++
+					toks = append(toks, "3", "0")
+					return c07Ok(toks...)
+				}
+				out = "4"
+			}
+		default: // 'F'
+			c.sessionMu.Lock()
+			for ; nextFiller <= 0xFFFF; nextFiller++ {
+				if c.sidIndex[uint16(nextFiller)] == filler {
+					delete(c.sidIndex, uint16(nextFiller))
+					break
+				}
+			}
+			c.sessionMu.Unlock()
+			out = "4"
+		}
+		if !c.sidMu.TryLock() {
+			return "lockleak-sidMu"
+		}
+		c.sidMu.Unlock()
+		if !c.sessionMu.TryLock() {
+			return "lockleak-sessionMu"
+		}
+		nfree := 0xFFFF - len(c.sidIndex)
+		c.sessionMu.Unlock()
+		toks = append(toks, out, c07U(uint64(nfree)))
+	}
+	if len(toks) == 0 {
+		return "ok"
+	}
+	return c07Ok(toks...)
+}
+
+type c07GroupCfg struct{ cfg *config.Config }
+
+func (f *c07GroupCfg) GetRunning() (*config.Config, error) { return f.cfg, nil }
+func (f *c07GroupCfg) GetStartup() (*config.Config, error) { return f.cfg, nil }
+func (f *c07GroupCfg) LookupSubscriberGroup(svlan, cvlan uint16) (subscriber.GroupMatch, bool) {
+	return subscriber.BuildMatchIndex(f.cfg.SubscriberGroups).Lookup(svlan, cvlan)
+}
+
 // bkrakick <N>,<K>: N IPv6CP-up events (the FSM's layer-up callback, run under the session lock) while nobody
 // drains the K-slot RA kick queue.
 func c07BacklogRAKick(n []uint64) string {
@@ -463,6 +583,8 @@ func c07Sess(entry string, n []uint64, f []string) string {
 		return c07Ok(k, c07TB([]byte(s.Username)))
 	case "fzseq":
 		return c07Sequence(n, f)
+	case "bkpadr":
+		return c07DiscoveryExhaustion(n, data)
 	case "bkevd6":
 		return c07EventsDHCPv6(n, data)
 	case "bkevra":
